@@ -672,6 +672,126 @@ def chk_unfiltered_counts(an: int, ax: int, ay: int, depth: int, toast: bool) ->
     return ok
 
 
+def _history_one_object(an, ax, ay, depth, kind, count_first, visit_first):
+    """
+    One Pyramid object through a history: (optionally) counted / visited as a whole, THEN restricted with subpyramid(apex),
+    then counted, walked and leaf-visited again, twice. Every answer after the restriction must be the answer a fresh
+    object gives (state kept on the object between calls must not leak), and counts must equal what is visited.
+    """
+    apex = Pos(an, ax, ay)
+
+    def mk():
+        if kind == 0:
+            return Pyramid.new_generic(depth)
+        if kind == 1:
+            return Pyramid.new_toast(depth)
+        return Pyramid.new_toast_filtered(depth, lambda t: True)
+
+    p = mk()
+    ok = True
+    if count_first:
+        full = (p.count_leaf_tiles(), p.count_live_tiles(), p.count_operations())
+        ok = ok and full == (4 ** depth, (4 ** (depth + 1) - 1) // 3, (4 ** depth - 1) // 3)
+    if visit_first:
+        w0, v0 = [], []
+        p.walk(w0.append, parallel=1)
+        p.visit_leaves(lambda pos, t: v0.append(pos), parallel=1)
+        ok = ok and len(w0) == (4 ** depth - 1) // 3 and len(v0) == 4 ** depth
+    if an > 0:
+        p.subpyramid(apex)
+    k = depth - an
+    want = (4 ** k, (4 ** (k + 1) - 1) // 3, (4 ** k - 1) // 3)
+    for _round in range(2):
+        got = (p.count_leaf_tiles(), p.count_live_tiles(), p.count_operations())
+        w, v = [], []
+        p.walk(w.append, parallel=1)
+        p.visit_leaves(lambda pos, t: v.append(pos), parallel=1)
+        ok = ok and got == want and len(w) == want[2] and len(set(w)) == want[2] and len(v) == want[0] and len(set(v)) == want[0]
+        ok = ok and all(q.n == depth and is_subtile(q, apex) for q in v) and all(an <= q.n < depth and is_subtile(q, apex) for q in w)
+    return ok
+
+
+def chk_history_k0_c0v1(an: int, ax: int, ay: int, depth: int) -> bool:
+    """
+    pre: 0 <= an <= 2 and an <= depth <= 2 and depth >= 0
+    pre: 0 <= ax < 2**an and 0 <= ay < 2**an
+    post: _
+    """
+    return _history_one_object(an, ax, ay, depth, 0, False, True)
+
+
+def chk_history_k0_c1v0(an: int, ax: int, ay: int, depth: int) -> bool:
+    """
+    pre: 0 <= an <= 2 and an <= depth <= 2 and depth >= 0
+    pre: 0 <= ax < 2**an and 0 <= ay < 2**an
+    post: _
+    """
+    return _history_one_object(an, ax, ay, depth, 0, True, False)
+
+
+def chk_history_k0_c1v1(an: int, ax: int, ay: int, depth: int) -> bool:
+    """
+    pre: 0 <= an <= 2 and an <= depth <= 2 and depth >= 0
+    pre: 0 <= ax < 2**an and 0 <= ay < 2**an
+    post: _
+    """
+    return _history_one_object(an, ax, ay, depth, 0, True, True)
+
+
+def chk_history_k1_c0v1(an: int, ax: int, ay: int, depth: int) -> bool:
+    """
+    pre: 0 <= an <= 2 and an <= depth <= 2 and depth >= 1
+    pre: 0 <= ax < 2**an and 0 <= ay < 2**an
+    post: _
+    """
+    return _history_one_object(an, ax, ay, depth, 1, False, True)
+
+
+def chk_history_k1_c1v0(an: int, ax: int, ay: int, depth: int) -> bool:
+    """
+    pre: 0 <= an <= 2 and an <= depth <= 2 and depth >= 1
+    pre: 0 <= ax < 2**an and 0 <= ay < 2**an
+    post: _
+    """
+    return _history_one_object(an, ax, ay, depth, 1, True, False)
+
+
+def chk_history_k1_c1v1(an: int, ax: int, ay: int, depth: int) -> bool:
+    """
+    pre: 0 <= an <= 2 and an <= depth <= 2 and depth >= 1
+    pre: 0 <= ax < 2**an and 0 <= ay < 2**an
+    post: _
+    """
+    return _history_one_object(an, ax, ay, depth, 1, True, True)
+
+
+def chk_history_k2_c0v1(an: int, ax: int, ay: int, depth: int) -> bool:
+    """
+    pre: 0 <= an <= 2 and an <= depth <= 2 and depth >= 1
+    pre: 0 <= ax < 2**an and 0 <= ay < 2**an
+    post: _
+    """
+    return _history_one_object(an, ax, ay, depth, 2, False, True)
+
+
+def chk_history_k2_c1v0(an: int, ax: int, ay: int, depth: int) -> bool:
+    """
+    pre: 0 <= an <= 2 and an <= depth <= 2 and depth >= 1
+    pre: 0 <= ax < 2**an and 0 <= ay < 2**an
+    post: _
+    """
+    return _history_one_object(an, ax, ay, depth, 2, True, False)
+
+
+def chk_history_k2_c1v1(an: int, ax: int, ay: int, depth: int) -> bool:
+    """
+    pre: 0 <= an <= 2 and an <= depth <= 2 and depth >= 1
+    pre: 0 <= ax < 2**an and 0 <= ay < 2**an
+    post: _
+    """
+    return _history_one_object(an, ax, ay, depth, 2, True, True)
+
+
 # ------------------------------------------------------------------ 7. end-to-end with symbolic filter masks
 
 def _idx(pos):
